@@ -42,6 +42,9 @@ MonShipped ==
     /\ Check("C17", "MainStarts", Ev.main = "serving")
     \* ... and inside Main the feeder of every entry that has one is actually RUNNING from its URL (with all the cores of this machine, with two, with one)
     /\ Check("C17", "EveryConfiguredFeederIsRunning", Ev.unpolled = <<>>)
+    \* ... and the add-checkpoint endpoint inside Main knows every entry the witness knows (403 for an unsigned checkpoint of its origin, not 404),
+    \* with polling on and with polling off (a bastion-only witness)
+    /\ Check("C17", "EndpointKnowsEveryShippedLog", Ev.bastionunknown = <<>>)
 
 \* generated configurations: the real Main ends the way the start-up machine says
 MonGenerated ==
